@@ -16,7 +16,7 @@ from models import bindings as M
 ID = "C11"
 ENGINE = "threadsim"
 LEVEL = "exploration"
-TIERS = {"quick": {"runs": 4000, "timeout": 1200}, "thorough": {"runs": 100000, "timeout": 7200,
+TIERS = {"quick": {"runs": 10000, "timeout": 1200}, "thorough": {"runs": 300000, "timeout": 7200,
                                                                 "lane_timeout": 1500}}
 EST_STEPS = [150, 500, 1500]
 P_OPCODE = 0.0
